@@ -826,6 +826,12 @@ def _sync_caller(*events, what='value', changed=None, callback=None, function=No
         return function()
 
 
+def _update_deps_caller(obj, attribute, *events):
+    # A partial of this function (rather than a closure over obj) is
+    # copied and pickled together with the object it belongs to
+    obj.param._update_deps(attribute)
+
+
 def _m_caller(self, method_name, what='value', changed=None, callback=None):
     """
     Wrap a method call adding support for scheduling a callback
@@ -2396,12 +2402,9 @@ class Parameters:
         depth = subobjs.index(dep_obj)
         callback = None
         if depth > 0:
-            def callback(*events):
-                """
-                If a subobject changes, we need to notify the main
-                object to update the dependencies.
-                """
-                obj.param._update_deps(attribute)
+            # If a subobject changes, we need to notify the main
+            # object to update the dependencies.
+            callback = partial(_update_deps_caller, obj, attribute)
 
         p = '.'.join(dynamic_dep.spec.split(':')[0].split('.')[depth+1:])
         if p == 'param':
@@ -5412,7 +5415,15 @@ class Parameterized(metaclass=ParameterizedMetaclass):
                             watcher_args[0] = self
                         fn = watcher.fn
                         if hasattr(fn, '_watcher_name'):
-                            watcher_args[2] = _m_caller(self, fn._watcher_name)
+                            kws = getattr(fn, 'keywords', {})
+                            owner = getattr(kws.get('function'), '__self__', None)
+                            if owner is not self and (owner is None or owner is watcher.inst):
+                                watcher_args[2] = _m_caller(
+                                    self, fn._watcher_name, kws.get('what', 'value'),
+                                    kws.get('changed'), kws.get('callback'))
+                            # otherwise the caller has been copied along with
+                            # the object its method belongs to: this object, or
+                            # another one that depends on it ('sub.x')
                         elif get_method_owner(fn) is watcher.inst:
                             watcher_args[2] = getattr(self, fn.__name__)
                         recreated[id(watcher)] = Watcher(*watcher_args)
